@@ -3,7 +3,7 @@
 // Drives the real stir::KeyParser (get_keyword / standardise_keyword / add_key / add_vectorised_key / add_alias_key /
 // parse / parameter_info) and every class found at run time in the RegisteredObject registries.
 //   (a) line protocol (ops file / impl file) compared with the Lean model (lean/Driver/C17.lean):
-//         std x<s>, kw x<line>, cfg reset|key|alias …, parse x<text>, info
+//         std x<s>, kw x<line>, cfg reset|key|alias …, parse x<text>, info, count <current> x<line>
 //       inputs: keywords and lines of headers written by the library itself (Interfile image / projection data
 //       headers, parameter_info() of registered classes and of the probe tables) and grammar-aware mutations.
 //   (b) property oracle on the implementation (<implfile>.oracle):
@@ -11,7 +11,8 @@
 //           (also after seeded value replacements accepted by the class), each class in a forked child;
 //         - keyword matching ignores case / runs of " \t_!", aliases resolve, vectorised keys land at the index given;
 //         - KeyParser tables with random printable values: parameter_info -> parse -> parameter_info is the identity;
-//         - string lists are split and trimmed like scalar strings; input ending in a continuation backslash terminates.
+//         - string lists are split and trimmed like scalar strings; input ending in a continuation backslash terminates;
+//         - the tables of an Interfile header have the number of elements that the header declares.
 // Usage: c17_keyparser <seed> <quick|thorough> <opsfile> <implfile>
 #include "common.h"
 #include "stir_fixtures.h"
@@ -36,6 +37,8 @@
 #include "stir/scatter/ScatterSimulation.h"
 #include "stir/data/SinglesRates.h"
 #include "stir/ProjDataInterfile.h"
+#include "stir/IO/InterfileHeader.h"
+#include "stir/MultipleDataSetHeader.h"
 #include "stir/ExamInfo.h"
 #include "stir/TextWriter.h"
 #include "stir/Succeeded.h"
@@ -1567,6 +1570,78 @@ main(int argc, char** argv)
       }
   }
 
+  // ================================================================ 4b. header-declared counts size the tables of the header
+  // `number of dimensions := n` etc. run set_variable() and then resize their tables to the count (InterfileHeader::read_matrix_info,
+  // read_frames_info, read_num_energy_windows, MultipleDataSetHeader::read_num_data_sets).  op: count <current value> x<line>
+  // answer: number of elements of the table afterwards, `err` if an exception left the parser (negative count).
+  {
+    struct CountKey
+    {
+      const char* key;
+      int current;
+      int which;
+    };
+    static const CountKey keys[] = { { "number of dimensions", 2, 0 }, { "number of time frames", 1, 1 }, { "number of energy windows", 1, 2 },
+                                     { "total number of data sets", 0, 3 } };
+    static const char* cvalues[] = { "0", "1", "2", "3", "5", "17", "-1", "-3", "+4", " 12 ", "007", "3.9", "7x", "x7", "", "  ", "abc", "99999999999",
+                                     "-99999999999", "1000", "4096", "{3}", "1e2", "-0" };
+    const int ncv = sizeof(cvalues) / sizeof(cvalues[0]);
+    const int n = thorough ? 1200 : 240;
+    for (int k = 0; k < n; ++k)
+      {
+        const CountKey& ck = keys[rng.range(0, 3)];
+        std::string value = rng.range(0, 2) == 0 ? std::string(cvalues[rng.range(0, ncv - 1)]) : std::to_string(rng.range(-4, 3000));
+        const std::string line = (rng.range(0, 3) == 0 ? equivalent_variant(rng, ck.key) : std::string(ck.key)) + (rng.coin() ? " := " : ":=") + value;
+        std::string ans;
+        try
+          {
+            if (ck.which == 3)
+              {
+                MultipleDataSetHeader h;
+                std::istringstream in("Multi :=\n" + line + "\nEnd :=\n");
+                h.parse(in);
+                ans = std::to_string(h.get_num_data_sets());
+              }
+            else
+              {
+                InterfileImageHeader hdr;
+                std::istringstream in("!INTERFILE :=\n" + line + "\n!END OF INTERFILE :=\n");
+                hdr.parse(in);
+                std::size_t sz = 0;
+                bool same = true;
+                if (ck.which == 0)
+                  {
+                    sz = hdr.matrix_size.size();
+                    same = hdr.matrix_labels.size() == sz && hdr.pixel_sizes.size() == sz && static_cast<std::size_t>(std::max(0, hdr.num_dimensions)) == sz;
+                  }
+                else if (ck.which == 1)
+                  {
+                    sz = hdr.data_offset_each_dataset.size();
+                    same = hdr.image_scaling_factors.size() == sz;
+                  }
+                else
+                  {
+                    sz = hdr.lower_en_window_thresholds.size();
+                    same = hdr.upper_en_window_thresholds.size() == sz && static_cast<std::size_t>(std::max(0, hdr.num_energy_windows)) == sz;
+                  }
+                ans = std::to_string(sz);
+                ++g_oracle_checks;
+                if (!same)
+                  oracle_fail("Interfile header: the tables sized by '" + std::string(ck.key) + "' have different numbers of elements after the line '" + line + "'");
+              }
+          }
+        catch (std::bad_alloc&)
+          {
+            throw;
+          }
+        catch (std::exception&)
+          {
+            ans = "err";
+          }
+        emit("count " + std::to_string(ck.current) + " " + hexs(line), ans);
+      }
+  }
+
   // ================================================================ 5. property oracle on KeyParser itself
   {
     const int n = thorough ? 4000 : 800;
@@ -1635,23 +1710,46 @@ main(int argc, char** argv)
             oracle_fail("KeyParser round trip: parameter_info -> parse (" + ans.substr(0, 3) + ") -> parameter_info differs: " + first_difference(s1, s2));
         }
       }
-    // ---- (d) string lists are split at commas and trimmed like scalar strings
+    // ---- (d) string lists are split at commas and every element is trimmed like a scalar string (no character is lost)
     {
-      ProbeTable t(true, 3);
-      t.parse_here(PROBE_START + "string list := {a , b c ,d}\n" + PROBE_STOP);
-      ++g_oracle_checks;
-      const std::vector<std::string> expect = { "a", "b c", "d" };
-      const bool trimmed = t.slist->sl == expect;
-      ProbeTable u(true, 3);
-      const std::string ans = u.parse_here(PROBE_START + "string list := {a, bc\n" + PROBE_STOP);
-      ++g_oracle_checks;
-      const bool unterminated_ok = ans.substr(0, 3) != "ok1" || u.slist->sl == std::vector<std::string>({ "a", "bc" }) || u.slist->sl.empty();
-      if (!trimmed || !unterminated_ok)
-        known_candidate("keyparser:string-list-trailing-whitespace",
-                        "KeyParser vector<string> values (get_vparam_from_string, KeyParser.cxx:759-807): 'string list := {a , b c ,d}' is stored as "
-                            + fmt_strs(t.slist->sl) + " (hex; trailing blanks of the elements kept, the scalar string parser trims them) and the "
-                            + "unterminated '{a, bc' is silently accepted as " + fmt_strs(u.slist->sl)
-                            + " (last character lost): find_last_not_of(\" \\t\", eop) starts at the separator itself");
+      auto blanks = [&](int maxn) {
+        std::string b;
+        for (int k = rng.range(0, maxn); k > 0; --k)
+          b += rng.coin() ? ' ' : '\t';
+        return b;
+      };
+      const int nlists = thorough ? 2000 : 400;
+      for (int k = 0; k < nlists; ++k)
+        {
+          std::vector<std::string> expect;
+          std::string value = "{";
+          const int ne = rng.range(1, 4);
+          for (int j = 0; j < ne; ++j)
+            {
+              std::string e = WORDS[rng.range(0, 20)];
+              if (rng.coin())
+                e += std::string(rng.coin() ? " " : "\t ") + WORDS[rng.range(0, 20)];
+              expect.push_back(e);
+              value += (j ? "," : "") + blanks(2) + e + blanks(2);
+            }
+          const int form = rng.range(0, 3); // 0,1: closed list; 2: closing brace missing; 3: single value without braces
+          if (form <= 1)
+            value += "}" + blanks(2);
+          else if (form == 3)
+            {
+              expect.resize(1);
+              value = expect[0] + blanks(3);
+            }
+          ProbeTable t(true, 3);
+          const std::string line = "string list :=" + blanks(2) + value;
+          const std::string ans = t.parse_here(PROBE_START + line + "\n" + PROBE_STOP);
+          ++g_oracle_checks;
+          if (ans.substr(0, 3) != "ok1" || t.slist->sl != expect)
+            known_candidate("keyparser:string-list-trailing-whitespace",
+                            "KeyParser vector<string> values (get_vparam_from_string<vector<string>>, KeyParser.cxx): the line '" + line
+                                + "' is stored as " + fmt_strs(t.slist->sl) + " (hex), expected " + fmt_strs(expect)
+                                + " (elements split at ',' and trimmed of blanks/tabs at both ends, no character lost)");
+        }
     }
     // ---- (e) input that ends in a continuation backslash terminates
     {
